@@ -67,8 +67,8 @@ def fromPq (p q : Nat) : Outcome :=
 
 /-- `Deserialize for SK2048`, once `p`, `q` have been read -/
 def skAdmit (p q : Nat) : Outcome :=
-  if p % 2 = 1 ∧ q % 2 = 1 then fromPq p q
-  else .err "invalid Paillier secret key: p and q must be odd"
+  if p % 2 = 1 ∧ q % 2 = 1 ∧ p ≠ 1 ∧ q ≠ 1 then fromPq p q
+  else .err "invalid Paillier secret key: p and q must be odd and greater than one"
 
 /-! ### binary form (bincode: fixed-size tuples of bytes, trailing bytes ignored) -/
 
